@@ -1209,9 +1209,10 @@ ImplScalarDrift(ev, pre) ==
 \* C07 routine level: one recorded call of the axis-matching routine
 ReshapeArgsEv(ev) ==
   LET t == ev.regs.tab
-      en == Flag(t, "back") \/ IsMergeDrop(t.shape, t.newshape)
+      promised == Flag(t, "back") \/ IsMergeDrop(t.shape, t.newshape)
+      en == promised \/ Flag(t, "wellposed")
   IN IF ~en THEN {}
-     ELSE IF ev.outcome = "raise" THEN {"C07.routine.raises"}
+     ELSE IF ev.outcome = "raise" THEN (IF promised THEN {"C07.routine.raises"} ELSE {})
      ELSE F(PlanWellFormed(t.shape, t.subsizes, t.plan), "C07.routine.plan_well_formed")
           \cup (IF PlanWellFormed(t.shape, t.subsizes, t.plan)
                 THEN F(ShapeOfAxes(ApplyPlan(t.shape, t.subsizes, t.plan)) = t.newshape, "C07.routine.plan_gives_target")
